@@ -402,6 +402,16 @@ def run(ctx, anchors=None):
             return False
         c0, parts = symx.lin_parts(t[3])
         return c0 == -depth and len(parts) == 1 and list(parts.values()) == [1] and list(parts.keys())[0][:2] == ("ap", "m:size")
+
+    def decided_empty(depth, o):
+        for (t, v) in o.conds:
+            if v and isinstance(t, tuple) and t[:2] == ("ap", "m:empty") and operand(t[2], depth):
+                return True
+            if v and isinstance(t, tuple) and t[0] == "eq" and symx.C(0) in t[1:] and any(isinstance(x, tuple) and x[:2] == ("ap", "m:size") and operand(x[2], depth) for x in t[1:]):
+                return True
+            if (not v) and isinstance(t, tuple) and t[:2] == ("ap", "m:size") and operand(t[2], depth):
+                return True
+        return False
     for sn in ("OP_CAT", "OP_AND", "OP_OR", "OP_XOR"):
         if sn not in {x.split("::")[-1] for x in handled}:
             continue
@@ -411,6 +421,7 @@ def run(ctx, anchors=None):
         ctx.site(len(succ))
         bad = None
         noeq = 0
+        pop_only = []
         for o in succ:
             pushed = [e.terms[1] for e in o.events if e.kind == "mcall" and e.name in ("push_back", "emplace_back") and len(e.terms) == 2 and
                       any(isinstance(y, tuple) and y[0] == "f" and y[2] == "stack" for y in symx.subterms(e.terms[0]))]
@@ -421,6 +432,12 @@ def run(ctx, anchors=None):
                         v = v[2]
                     return operand(v, 2)
                 inplace = [v for v in o.store.values() if slot(v)]
+                npop = sum(1 for e in o.events if e.kind in ("call", "mcall") and e.name in ("popstack", "_popstack", "pop_back"))
+                if not inplace and sn == "OP_CAT" and npop == 1:
+                    # a fast path that only drops the top element: the result is the first operand as it stands, which is the
+                    # concatenation exactly when the path decided that the second operand is empty
+                    pop_only.append(o)
+                    continue
                 if not inplace:
                     raise AnalysisBroken("R17.7: the successful path of %s neither pushes a value nor works on the first operand in place" % sn)
                 pushed = [sorted(inplace, key=lambda v: len(repr(v)))[-1]]
@@ -433,25 +450,20 @@ def run(ctx, anchors=None):
                     pool += list(e.terms)
             has1 = any(operand(y, 2) for t_ in pool for y in symx.subterms(t_))
             has2 = any(operand(y, 1) for t_ in pool for y in symx.subterms(t_))
-            def decided_empty(depth):
-                for (t, v) in o.conds:
-                    if v and isinstance(t, tuple) and t[:2] == ("ap", "m:empty") and operand(t[2], depth):
-                        return True
-                    if v and isinstance(t, tuple) and t[0] == "eq" and symx.C(0) in t[1:] and any(isinstance(x, tuple) and x[:2] == ("ap", "m:size") and operand(x[2], depth) for x in t[1:]):
-                        return True
-                    if (not v) and isinstance(t, tuple) and t[:2] == ("ap", "m:size") and operand(t[2], depth):
-                        return True
-                return False
             # an operand the path decided to be empty contributes nothing to a concatenation: leaving it out is the function
             if sn == "OP_CAT":
-                has1 = has1 or decided_empty(2)
-                has2 = has2 or decided_empty(1)
+                has1 = has1 or decided_empty(2, o)
+                has2 = has2 or decided_empty(1, o)
             if not (has1 and has2):
                 bad = (symx.show(pushed[-1])[:100], "first" if not has1 else "second",
                        [("" if v else "!") + symx.show(t)[:60] for (t, v) in o.conds if "opcode" not in symx.show(t)][-2:])
             if sn != "OP_CAT":
                 eqd = any(v and isinstance(t, tuple) and t[0] == "eq" and all(isinstance(x, tuple) and x[:2] == ("ap", "m:size") and (operand(x[2], 1) or operand(x[2], 2)) for x in t[1:]) for (t, v) in o.conds)
                 noeq += 0 if eqd else 1
+        for o in pop_only:
+            if not decided_empty(1, o):
+                bad = ("<the first operand, left in place>", "second",
+                       [("" if v else "!") + symx.show(t)[:60] for (t, v) in o.conds if "opcode" not in symx.show(t)][-2:])
         ctx.inst(bad is None, "R17.7", "both-operands:" + sn, ext.loc(), "%s: every successful path pushes a value built from both operands" % sn,
                  "%s: on the path %s the pushed value %s does not depend on the %s operand" % ((sn, bad[2], bad[0], bad[1]) if bad else (sn, "", "", "")))
         if sn != "OP_CAT":
@@ -484,6 +496,7 @@ def run(ctx, anchors=None):
 MUTANTS = [
     dict(name="mul-overflow-unchecked", file="debugger/interpreter.cpp", regex=True, find=r"            case OP_MUL:\n.*?                break;\n", replace="            case OP_MUL: num1 = num1 * num2; break;\n", expect=["R17.9:no-wrapped-result:OP_MUL"]),
     dict(name="cat-drops-operand-when-empty", file="debugger/interpreter.cpp", find="        vch1.insert(vch1.end(), vch2.begin(), vch2.end());", replace="        if (!vch1.empty() && !vch2.empty()) vch1.insert(vch1.end(), vch2.begin(), vch2.end());", expect=["R17.7:both-operands:OP_CAT"]),
+    dict(name="cat-fastpath-pops-when-either-operand-is-empty", file="debugger/interpreter.cpp", find="        vch1 = stacktop(-2);\n        vch2 = stacktop(-1);\n        vch1.insert(vch1.end(), vch2.begin(), vch2.end());", replace="        if (stacktop(-1).empty() || stacktop(-2).empty()) { popstack(stack); return true; }\n        vch1 = stacktop(-2);\n        vch2 = stacktop(-1);\n        vch1.insert(vch1.end(), vch2.begin(), vch2.end());", expect=["R17.7:both-operands:OP_CAT"]),
     dict(name="cat-result-is-second-operand-only", file="debugger/interpreter.cpp", find="        vch1.insert(vch1.end(), vch2.begin(), vch2.end());", replace="        if (vch2.size() > 520) vch1.insert(vch1.end(), vch2.begin(), vch2.end());", expect=["R17.7:both-operands:OP_CAT"]),
     dict(name="bitwise-length-test-one-sided", file="debugger/interpreter.cpp", find="if (vch1.size() != vch2.size()) return set_error(serror, SCRIPT_ERR_UNKNOWN_ERROR);", replace="if (vch1.size() > vch2.size()) return set_error(serror, SCRIPT_ERR_UNKNOWN_ERROR);", expect=["R17.8:equal-lengths"]),
     dict(name="2mul-on-raw-bytes", file="debugger/interpreter.cpp", find="            CScriptNum num(vch1, env.fRequireMinimal, 5);\n            num = num * CScriptNum(2);\n            vch1 = num.getvch();\n",
